@@ -29,7 +29,7 @@ CLAUSES = ["uniform:values", "uniform:weights", "gaussian:symmetric", "gaussian:
            "divide:partition-values", "divide:partition-weights", "divide:block-sizes", "divide:lazy-equals-eager",
            "unpack:values-weights"]
 QUICK = dict(n=2500, time=30)
-THOROUGH = dict(n=100000, time=150, shards=16)
+THOROUGH = dict(n=800000, time=480, shards=16)
 
 RT = 1e-12
 
